@@ -7,18 +7,17 @@ namespace CalmVerif.TokenAdj
 open CalmVerif CalmVerif.Unparse
 
 def certMin0 : List (String × Abs) := certIter Gen.Rules.rs_minify0 Gen.Defs.definitions 4
-def cxMin0 : Ctx := mkCtx Gen.Rules.rs_minify0 certMin0
+def cxMin0 : Ctx := mkCtx Gen.Rules.rs_minify0 Gen.Defs.definitions certMin0
 /-- the follow relation: every pair of symbols (token signatures, layout markers) that can be adjacent in a chunk stream -/
 def followMin0 : List Rect := allNeeds cxMin0 Gen.Defs.definitions
 
 set_option maxRecDepth 1000000 in
 theorem certMin0_closed_forced :
-    withCert Gen.Rules.rs_minify0 Gen.Defs.definitions 4
-      (fun c => closedCert (mkCtx Gen.Rules.rs_minify0 c) Gen.Defs.definitions) = true := by decide +kernel
+    withCtx Gen.Rules.rs_minify0 Gen.Defs.definitions 4 (fun cx => closedCert cx Gen.Defs.definitions) = true := by decide +kernel
 
 theorem certMin0_closed : closedCert cxMin0 Gen.Defs.definitions = true := by
   have h := certMin0_closed_forced
-  rw [withCert_eq] at h
+  rw [withCtx_eq] at h
   exact h
 
 theorem followMin0_closed : closed cxMin0 followMin0 Gen.Defs.definitions = true :=
